@@ -12,7 +12,8 @@
 From Coq Require Import List ZArith String Bool.
 Import ListNotations.
 Require Import Naga.Base.Bits32 Naga.Base.F32 Naga.IR.Values Naga.Spv.Binary Naga.Spv.Ops Naga.Spv.Sem
-               Naga.Spv.Catalogue Naga.Spv.CatalogueProofs Naga.Spv.OpTableCheck Naga.Gen.SpvOpTable.
+               Naga.Spv.Catalogue Naga.Spv.CatalogueProofs Naga.Spv.OpTableCheck Naga.Gen.SpvOpTable
+               Naga.IR.Syntax Naga.IR.Sem Naga.IR.SemProps Naga.Wgsl.Sem Naga.Wgsl.SemProps.
 Open Scope Z_scope.
 
 
@@ -246,6 +247,31 @@ Proof.
   exact (conj spv_dot_i32_v2_correct (conj spv_dot_i32_v3_correct (conj spv_dot_i32_v4_correct (conj spv_dot_u32_v2_correct (conj spv_dot_u32_v3_correct (conj spv_dot_u32_v4_correct spv_dot_f32_correct)))))).
 Qed.
 Print Assumptions c01_dot_and_vectors.
+
+(* ---- the two reference semantics the WGSL -> IR -> SPIR-V legs are validated against are partial FUNCTIONS
+   of (program, inputs): the fuel never changes a result.  "Computes what the WGSL program means" is
+   therefore well defined, for every program and every input. ---- *)
+Theorem c01_wgsl_meaning_is_a_function :
+  forall f1 f2 P globals args r1 r2,
+    wgsl_run f1 P globals args = Done r1 -> wgsl_run f2 P globals args = Done r2 -> r1 = r2.
+Proof. exact wgsl_run_deterministic. Qed.
+Print Assumptions c01_wgsl_meaning_is_a_function.
+
+Theorem c01_wgsl_fuel_monotone :
+  forall fuel fuel' P globals args r, (fuel <= fuel')%nat ->
+    wgsl_run fuel P globals args = Done r -> wgsl_run fuel' P globals args = Done r.
+Proof. exact wgsl_run_fuel_monotone. Qed.
+
+Theorem c01_ir_meaning_is_a_function :
+  forall f1 f2 m ep globals args r1 r2,
+    run_entry f1 m ep globals args = Done r1 -> run_entry f2 m ep globals args = Done r2 -> r1 = r2.
+Proof. exact run_entry_deterministic. Qed.
+Print Assumptions c01_ir_meaning_is_a_function.
+
+Theorem c01_ir_fuel_monotone :
+  forall fuel fuel' m ep globals args r, (fuel <= fuel')%nat ->
+    run_entry fuel m ep globals args = Done r -> run_entry fuel' m ep globals args = Done r.
+Proof. exact run_entry_fuel_monotone. Qed.
 
 (* the tie to the compiler: every template probed from today's naga is in the catalogue *)
 Theorem c01_gen_table_in_catalogue : missing_rows table = [].
